@@ -907,15 +907,19 @@ def initializer_contracts(ctx: Ctx) -> list[Ob]:
     f = repo.func("cirkit.backend.torch.initializers.dirichlet_")
     obs: list[Ob] = []
     ranks = (2, 3, 4, 5) if ctx.tier == "thorough" else (2, 3, 4)
+    from ..shapes import SeqV
+
     for r in ranks:
+      for alpha_kind in ("scalar", "list"):
         for dim in list(range(1, r)) + [-1]:
             shape = tuple(Dim.sym(f"d{i}") for i in range(r))
-            inst = f"dirichlet[rank={r},dim={dim}]"
+            inst = f"dirichlet[rank={r},dim={dim}]" + ("" if alpha_kind == "scalar" else "[alpha=list]")
             it = Interp(repo)
             st = State()
+            alpha: V = FloatV(1.0) if alpha_kind == "scalar" else SeqV(FloatV(None), Dim.sym("A"))
             try:
                 it.copies = []  # type: ignore[attr-defined]
-                res = list(it.call(f, [fresh_tensor(shape), FloatV(1.0)], {"dim": mkint(dim)}, st))
+                res = list(it.call(f, [fresh_tensor(shape), alpha], {"dim": mkint(dim)}, st))
                 if not res:
                     obs.append(unres("R4i", f.qualname, inst, "every path raises", f.loc))
                 for rv, s2 in res:
